@@ -613,8 +613,8 @@ class ErdosRenyiNet(DynamicNetwork):
         r = ss.utils.combine_rands(i1, i2) # TODO: use ss.multi_rand()
         edge = r <= self.pars.p
 
-        p1 = idx1[edge]
-        p2 = idx2[edge]
+        p1 = born_uids[idx1[edge]] # Convert positions in born_uids to UIDs
+        p2 = born_uids[idx2[edge]]
         beta = np.ones(len(p1), dtype=ss_float_)
 
         if isinstance(self.pars.dur, ss.Dist):
